@@ -802,7 +802,10 @@ def material_balance(chemical_IDs, variable_inlets, constant_inlets=(),
     """
     # SOLVING BY ITERATION TAKES 15 LOOPS FOR 2 STREAMS
     # SOLVING BY LEAST-SQUARES TAKES 40 LOOPS
-    solver = np.linalg.solve if is_exact else np.linalg.lstsq
+    if is_exact:
+        solver = np.linalg.solve
+    else:
+        solver = lambda A, b: np.linalg.lstsq(A, b, rcond=None)[0]
 
     # Set up constant and variable streams
     if not variable_inlets:
